@@ -32,6 +32,27 @@ CHECKS = {
             "Trusted: TLC, LexerOps.LineOf as the reading of 'line on which the token begins', the fault templates' marked tokens; "
             "for operator faults/calls the operator's or the construct's first line is accepted. Columns are not compared.",
             "DESIGN.md 4 C20"),
+    "C02": (["ExprOps.tla", "Expr.tla", "ExprMC.tla", "BigInt.tla", "Arith_Trace.tla", "Pred_Trace.tla"],
+            "TLA+ mirror of the precedence-climbing parser vs. reference precedence table and evaluation rules (TLC: all operator "
+            "pairs/unary combinations/chains), replayed on parser+interpreter; TLC trace validation of big-int arithmetic (limb "
+            "arithmetic in BigInt.tla) and of is/is-not predicate pairs",
+            "TLC checks MirrorIsRef (tree built by the climbing functions = tree of the precedence table), chain = conjunction, "
+            "short circuit, NULL propagation, int-iff-both-int, truncating division and modulus laws on ~7k (thorough ~20k) "
+            "generated expressions; each is rendered and the real parser's tree and the interpreter's value/error are compared "
+            "with the model's; 3.8k (thorough 200k) big-int events up to 130 bits are accepted by Arith_Trace only when exact; "
+            "~800 predicate pairs must be opposite booleans (and type words must answer the type).",
+            "Trusted: TLC, BigInt.tla (itself model-checked against native arithmetic in BigIntTest), the reading of the language "
+            "rules in ExprOps (decimal results compared with 1e-9 tolerance; combinations marked skip are tree-checked only).",
+            "DESIGN.md 4 C02"),
+    "C14": (["LexerOps.tla", "Lexer.tla", "LexerMC.tla", "ExprOps.tla", "Expr.tla"],
+            "TLC-checked SameSignature invariant of the scanner mirror over separators x literal spellings; programs re-rendered "
+            "from the model's separator/spelling alphabet and interpreted, observations compared",
+            "TLC shows exhaustively for all sequences of <= 3 (thorough 4) token spellings and separators that the scanner mirror "
+            "delivers the intended (type, value) sequence whatever layout and spelling; ~340 programs (thorough ~10k: generated "
+            "expressions, fault templates, statement programs with output) are each re-rendered >= 10 times with those "
+            "separators/spellings, redundant parentheses and trailing semicolons; value, output and error value must not change.",
+            "Trusted: TLC; the real lexer is used to tokenise the canonical text; re-renderings are random (seeded), not exhaustive.",
+            "DESIGN.md 4 C14"),
     "C15": (["SeqOps.tla", "Seq.tla", "Seq_Trace.tla"],
             "TLA+ list-object state machine (TLC exhaustive) + TLC-generated case replay + TLC trace validation of recorded calls",
             "TLC checks the index/slice/find/insert/delete laws on every list of length <= 3 (thorough 6) over 3 symbols and every "
